@@ -6,7 +6,7 @@ parts_of() {
     C11) echo "seq:cmd/keymasterd:C11 sched:cmd/keymasterd:C11S" ;;
     C14) echo "seq:cmd/keymasterd:C14 sched:cmd/keymasterd:C14S" ;;
     C16RACE) echo "seq:cmd/keymasterd:C16RACE" ;;
-    C19) echo "seq:cmd/keymaster:C19" ;;
+    C19) echo "seq:cmd/keymaster:C19 seq:cmd/keymaster:C19A" ;;
     C20) echo "seq:cmd/keymasterd:C20 seq:eventmon/eventrecorder:C20R seq:eventmon/monitord:C20M" ;;
     *) echo "seq:cmd/keymasterd:$1" ;;
   esac
